@@ -202,7 +202,10 @@ def last_att_class(s):
 
 PROFILE = {
     'world_kw_st': st.fixed_dictionaries({
-        'timer_jitter': st.sampled_from([0.0, 0.0, 2.0 ** -12])}),   # timers fire slightly late
+        'timer_jitter': st.sampled_from([0.0, 0.0, 2.0 ** -12]),   # timers fire slightly late
+        # handlers that take time: a handshake then runs while a handler is still busy
+        'handler_delay': st.sampled_from([{}, {}, {}, {'message': 0.25}, {'disconnect': 0.25},
+                                          {'message': 0.25, 'disconnect': 0.25}])}),
     'client_flavours': ['plain', 'plain', 'plain', 'plain', 'jsonp', 'gzip', 'jsonp+gzip'],
     'weights': {'open': 3, 'poll': 4, 'post': 1, 'probe_step': 10, 'upg_connect': 1, 'ws_send': 2,
                 'ws_close': 2, 'ws_fail': 1, 'pong': 1, 'app_send': 5, 'advance': 2},
